@@ -7,6 +7,7 @@
      Draw/Emit.v       the page loop of Document.Write (exact / float32 instances)
      Draw/Meta.v       GetHtmlMetadata
      Draw/Protocol.v   the backend contract as an automaton over calls
+     Draw/Tiling.v     the tiling arithmetic of drawBackgroundImage (draw.go:476-550)
    Check/C14.v ties every model to /repo on every run; the automaton is run as
    a monitor on the recorded trace of every generated document (draw.go's
    primitives are not modelled one by one: the protocol theorems below are about
@@ -15,7 +16,7 @@ From Verif Require Import Base.GoSem Base.F32 Geom.Matrix
   Draw.Links Draw.LinksSpec Draw.LinksProofs
   Draw.Bookmarks Draw.BookmarkSpec Draw.BookmarksProofs
   Draw.Protocol Draw.ProtocolProofs Draw.Emit Draw.EmitProofs
-  Draw.Meta Draw.MetaProofs.
+  Draw.Meta Draw.MetaProofs Draw.Tiling Draw.TilingProofs.
 From Coq Require Import QArith List ZArith NArith Permutation.
 Import ListNotations.
 
@@ -203,6 +204,52 @@ Theorem C14_write_calls_one_addpage_per_page : forall nembed pages na nb,
   filter is_addpage (write_calls nembed pages na nb) = map (fun p => CAddPage (w_canvas p) (K 4)) pages.
 Proof. exact write_calls_addpages. Qed.
 Print Assumptions C14_write_calls_one_addpage_per_page.
+
+(* ------------------------------------------------------------------ background tiling *)
+(* CSS Backgrounds 3, 3.4, for the pattern drawBackgroundImage hands to the backend
+   (tcell = period of the pattern, NewGroup; tshift = its translation, SetColorPattern;
+   exact arithmetic, the float32 instance is tied bit for bit by the check).
+   `tcount` is the largest number of whole tiles that fit in the positioning area: *)
+Theorem C14_tiling_count : forall a, 0 < a_img a ->
+  inject_Z (tcount a) * a_img a <= a_posw a /\ a_posw a < inject_Z (tcount a + 1) * a_img a.
+Proof. exact n_tiles_max. Qed.
+Print Assumptions C14_tiling_count.
+
+(* space, two copies or more: first copy at the origin of the positioning area, last
+   copy ending at its far edge, equal gaps, no overlap, background-position ignored
+   (in particular the divisor `n - 1` of draw.go:504 is at least 1) *)
+Theorem C14_tiling_space : forall a, a_rep a = RSpace -> 0 < a_img a -> (2 <= tcount a)%Z ->
+  inject_Z (tcount a - 1) * tcell a + a_img a == a_posw a /\ a_img a <= tcell a /\ tshift a == a_pos0 a.
+Proof. exact space_spec. Qed.
+Print Assumptions C14_tiling_space.
+
+(* space, fewer than two copies: one image, placed by background-position *)
+Theorem C14_tiling_space_single : forall a, a_rep a = RSpace -> (tcount a < 2)%Z ->
+  tcell a == a_posw a /\ tshift a == a_at a + a_pos0 a.
+Proof. exact space_single. Qed.
+Print Assumptions C14_tiling_space_single.
+
+Theorem C14_tiling_repeat : forall a, a_rep a = RRepeat \/ a_rep a = RRound ->
+  tcell a == a_img a /\ tshift a == a_at a + a_pos0 a.
+Proof. exact repeat_cell. Qed.
+Print Assumptions C14_tiling_repeat.
+
+Theorem C14_tiling_no_repeat : forall a, a_rep a = RNoRepeat ->
+  a_img a <= tcell a /\ 2 * a_paintw a <= tcell a /\ tshift a == a_at a + a_pos0 a.
+Proof. exact no_repeat_cell. Qed.
+Print Assumptions C14_tiling_no_repeat.
+
+(* the pattern cell holds a whole tile and is positive whenever a copy fits *)
+Theorem C14_tiling_cell_holds_tile : forall a, 0 < a_img a -> (a_rep a <> RSpace \/ (1 <= tcount a)%Z) ->
+  a_img a <= tcell a /\ 0 < tcell a.
+Proof. exact cell_holds_tile_positive. Qed.
+Print Assumptions C14_tiling_cell_holds_tile.
+
+Example C14_tiling_example :
+  (* a 50px area, 30px tiles, space: one copy fits, the cell is the area (the seeded `>= 1` divides by 0 here) *)
+  tile exactQ (mkaxis RSpace 0 50 50 30 7) (mkaxis RSpace 0 100 100 30 0)
+  = Some (mkoaxis 50 (7 + 0), mkoaxis ((100 - 30) / (inject_Z 3 - 1)) (0 + 0)).
+Proof. vm_compute. reflexivity. Qed.
 
 (* Not stated as a theorem: "every trace Document.Write can produce is accepted".
    That needs a model of every primitive of draw.go, text/draw and svg (about 4 kLOC
